@@ -17,6 +17,8 @@
 #include <type_traits>
 
 #include "bsx.h"
+#include "votca/tools/constants.h"
+#include "votca/xtp/checkpoint.h"
 #include "votca/xtp/classicalsegment.h"
 #include "votca/xtp/dipoledipoleinteraction.h"
 #include "votca/xtp/eeinteractor.h"
@@ -732,10 +734,221 @@ static bsx::Outcome run_rot_t(const RotCase &c) {
 }
 static bsx::Outcome run_rot(const RotCase &c) { return (c.lvl == 1 || c.lvl == 3) ? run_rot_t<PolarSite>(c) : run_rot_t<StaticSite>(c); }
 
+// ------------------------------------------------------------------ provenance of the polarisability
+// A PolarSite caches, next to the inverse polarisability, the damping length used by the Thole tensor.  The two are
+// set together by setpolarization(); every way a site can come by its polarisability must leave them consistent:
+// 0 constructor default (setpolarization never called), 1 explicitly set to that same value, 2 explicitly set
+// anisotropic, 3 read from .mps text without P line, 4 .mps with isotropic 'P x' line, 5 .mps with 6-component P line,
+// 6 written by WriteMPS and read back, 7 checkpoint (HDF5) round trip.
+struct ProvCase { int k1 = 0, k2 = 0, el = 0, dir = 0; double R = 1, damp = 0.39; };
+static const char *provname(int k) {
+  static const char *n[8] = {"constructor default (never set)", "explicitly set to the default value", "explicitly set anisotropic", ".mps without P line",
+                             ".mps with isotropic P line", ".mps with 6-component P line", "WriteMPS + LoadFromFile", "checkpoint round trip"};
+  return n[k];
+}
+static std::string provstr(const ProvCase &c) {
+  return "prov;k1=" + std::to_string(c.k1) + ";k2=" + std::to_string(c.k2) + ";el=" + std::to_string(c.el) + ";dir=" + std::to_string(c.dir) + ";R=" + hexd(c.R) + ";damp=" + hexd(c.damp);
+}
+static const M3 &aniso_pol() {  // bohr^3, symmetric positive definite, not axis aligned
+  static const M3 m = [] { double a[3] = {4.0, 9.0, 20.0}; return poltensor(a, true); }();
+  return m;
+}
+static std::string mps_text(const std::string &el, const V3 &pos, const double *Q, int pline /*0 none,1 iso,2 six*/) {
+  char b[1200];
+  int n = snprintf(b, sizeof b, "! C15 harness\nUnits bohr\n%s %.17g %.17g %.17g Rank 2\n  %.17g\n  %.17g %.17g %.17g\n  %.17g %.17g %.17g %.17g %.17g\n", el.c_str(), pos(0), pos(1),
+                   pos(2), Q[0], Q[3], Q[1], Q[2], Q[4], Q[5], Q[6], Q[7], Q[8]);  // dipoles are stored z x y
+  std::string s(b, (size_t)n);
+  const double a3 = std::pow(tools::conv::bohr2ang, 3);
+  if (pline == 1) { snprintf(b, sizeof b, "  P %.17g\n", 1.25); s += b; }
+  if (pline == 2) { const M3 &m = aniso_pol(); snprintf(b, sizeof b, "  P %.17g %.17g %.17g %.17g %.17g %.17g\n", m(0, 0) * a3, m(0, 1) * a3, m(0, 2) * a3, m(1, 1) * a3, m(1, 2) * a3, m(2, 2) * a3); s += b; }
+  return s;
+}
+static PolarSite prov_site(int kind, const std::string &el, const V3 &pos, const double *Q, Index id, const std::string &tag) {
+  Vector9d q;
+  for (int i = 0; i < 9; i++) q(i) = Q[i];
+  auto fresh = [&]() { PolarSite s(id, el, pos); s.setMultipole(q, 2); return s; };
+  auto write_text = [&](const std::string &fn, const std::string &txt) {
+    FILE *f = fopen(fn.c_str(), "w");
+    if (!f) throw std::runtime_error("cannot write " + fn);
+    fputs(txt.c_str(), f);
+    fclose(f);
+  };
+  auto load = [&](const std::string &fn) { PolarSegment seg("x", 0); seg.LoadFromFile(fn); if (seg.size() != 1) throw std::runtime_error("mps file gave " + std::to_string(seg.size()) + " sites"); return PolarSite(seg[0]); };
+  switch (kind) {
+    case 0: return fresh();
+    case 1: { PolarSite s = fresh(); PolarSite d(id, el, pos); s.setpolarization(d.getpolarization()); return s; }
+    case 2: { PolarSite s = fresh(); s.setpolarization(aniso_pol()); return s; }
+    case 3: case 4: case 5: { std::string fn = "prov_" + tag + ".mps"; write_text(fn, mps_text(el, pos, Q, kind - 3)); return load(fn); }
+    case 6: { PolarSegment seg("w", 0); PolarSite s = fresh(); if (id % 2) s.setpolarization(aniso_pol()); seg.push_back(s); std::string fn = "prov_" + tag + "_w.mps"; seg.WriteMPS(fn, "C15"); return load(fn); }
+    default: {
+      std::string fn = "prov_" + tag + ".hdf5";
+      {
+        PolarSegment seg("c", 0);
+        PolarSite s = fresh();  // constructor default goes into the file
+        if (id % 2) s.setpolarization(aniso_pol());
+        seg.push_back(s);
+        CheckpointFile f(fn, CheckpointAccessLevel::CREATE);
+        CheckpointWriter w = f.getWriter("/seg");
+        seg.WriteToCpt(w);
+      }
+      CheckpointFile f(fn, CheckpointAccessLevel::READ);
+      CheckpointReader r = f.getReader("/seg");
+      PolarSegment seg(r);
+      if (seg.size() != 1) throw std::runtime_error("checkpoint gave " + std::to_string(seg.size()) + " sites");
+      return PolarSite(seg[0]);
+    }
+  }
+}
+static bsx::Outcome run_prov(const ProvCase &c) {
+  bsx::Outcome o;
+  static const char *els[3] = {"C", "H", "N"};
+  auto failwith = [&](const std::string &key, const std::string &what) {
+    o.ok = false; o.key = key;
+    o.what = what + "  [site 1: " + els[c.el] + ", polarisability from " + provname(c.k1) + "; site 2: " + els[(c.el + 1) % 3] + ", from " + provname(c.k2) + "; R=" + bsx::fmt(c.R) +
+             " direction #" + std::to_string(c.dir) + ", damping a=" + bsx::fmt(c.damp) + "]";
+    return o;
+  };
+  try {
+    const V3 dirs[3] = {V3(0.48, -0.6, 0.64), V3(1, 0, 0), V3(-0.31, -0.62, 0.17).normalized()};
+    const V3 p1(0.3, -0.2, 0.1), p2 = p1 + c.R * dirs[c.dir];
+    double Q1[9], Q2[9];
+    mixvec_fixed(5, 0, Q1);
+    mixvec_fixed(9, 1, Q2);
+    const std::string e1 = els[c.el], e2 = els[(c.el + 1) % 3];
+    PolarSite s1 = prov_site(c.k1, e1, p1, Q1, 0, "1"), s2 = prov_site(c.k2, e2, p2, Q2, 1, "2");
+    const PolarSite *S[2] = {&s1, &s2};
+    const int K[2] = {c.k1, c.k2};
+    const std::string E[2] = {e1, e2};
+    // (1) the polarisability the site reports is the one its provenance promises
+    const double b3 = std::pow(tools::conv::ang2bohr, 3);
+    for (int i = 0; i < 2; i++) {
+      M3 pol = S[i]->getpolarization();
+      M3 want;
+      double tol = 1e-12;
+      PolarSite def((Index)i, E[i], S[i]->getPos());
+      switch (K[i]) {
+        case 0: case 1: case 3: want = def.getpolarization(); break;
+        case 2: case 5: want = aniso_pol(); break;
+        case 4: want = 1.25 * b3 * M3::Identity(); break;
+        default: want = (i % 2) ? aniso_pol() : M3(def.getpolarization()); tol = K[i] == 6 ? 2e-7 * b3 / want.norm() + 1e-12 : 1e-12; break;  // WriteMPS prints 7 decimals in A^3
+      }
+      if (!((pol - want).norm() <= tol * want.norm()) || !(want.norm() > 0))
+        return failwith(std::string("prov-polarisability-") + std::to_string(K[i]), "site " + std::to_string(i + 1) + " reports polarisability with |P - expected| = " + bsx::fmt((pol - want).norm()) + ", |expected| = " + bsx::fmt(want.norm()));
+    }
+    // (2) differential: a twin built by the public constructor and given the SAME polarisability explicitly
+    PolarSite t1(0, e1, s1.getPos()), t2(1, e2, s2.getPos());
+    t1.setMultipole(s1.Q(), s1.getRank()); t2.setMultipole(s2.Q(), s2.getRank());
+    t1.setpolarization(s1.getpolarization()); t2.setpolarization(s2.getpolarization());
+    const std::string pk = "-" + std::to_string(c.k1) + "-" + std::to_string(c.k2);
+    const double R = (s2.getPos() - s1.getPos()).norm(), u = 1 / (R * R * R);
+    eeInteractor ee(c.damp);
+    M3 T = ee.FillTholeInteraction(s1, s2), Tt = ee.FillTholeInteraction(t1, t2);
+    // (3) absolute oracles
+    if ((T - T.transpose()).cwiseAbs().maxCoeff() > 8 * DBL_EPSILON * u) return failwith("prov-thole-asymmetric" + pk, "T - T^T up to " + bsx::fmt((T - T.transpose()).cwiseAbs().maxCoeff()));
+    M3 T0;
+    for (int al = 0; al < 3; al++)
+      for (int be = 0; be < 3; be++) {
+        SiteD da, db;
+        for (int k = 0; k < 3; k++) { da.p[k] = s1.getPos()(k); db.p[k] = s2.getPos()(k); }
+        da.rank = db.rank = 1;
+        da.Q[1 + al] = 1; db.Q[1 + be] = 1;
+        T0(al, be) = ee.CalcStaticEnergy_site(mkstatic(da, 0), mkstatic(db, 1));
+      }
+    Eigen::SelfAdjointEigenSolver<M3> es1(s1.getpolarization()), es2(s2.getpolarization());
+    const double a1max = es1.eigenvalues().maxCoeff(), a1min = es1.eigenvalues().minCoeff(), a2max = es2.eigenvalues().maxCoeff(), a2min = es2.eigenvalues().minCoeff();
+    if (!(a1min > 0) || !(a2min > 0)) return failwith("prov-polarisability-not-positive" + pk, "a principal polarisability is " + bsx::fmt(std::min(a1min, a2min)));
+    const double au3_lo = c.damp * R * R * R / std::sqrt(a1max * a2max), au3_hi = c.damp * R * R * R / std::sqrt(a1min * a2min);
+    const double dev = (T - T0).norm() * R * R * R;
+    if (au3_lo >= 100) {
+      if (std::fabs(T.trace()) > 16 * DBL_EPSILON * u) return failwith("prov-thole-trace-large-separation" + pk, "trace = " + bsx::fmt(T.trace()) + " (1/R^3 = " + bsx::fmt(u) + ")");
+      if (dev > 1e-13) return failwith("prov-thole-large-separation" + pk, "|T - T_undamped| R^3 = " + bsx::fmt(dev) + " at a u^3 >= " + bsx::fmt(au3_lo));
+    }
+    if (au3_hi <= 10 && !(T.norm() < T0.norm() * (1 - 1e-9)))
+      return failwith("prov-thole-not-damped-at-short-range" + pk, "|T| = " + bsx::fmt(T.norm()) + " is not smaller than the undamped |T0| = " + bsx::fmt(T0.norm()));
+    if (!(T.norm() > 0)) return failwith("prov-thole-vanishes" + pk, "the damped tensor is identically zero");
+    if (!((T - Tt).norm() <= 1e-11 * u)) return failwith("prov-thole-differs-from-explicit" + pk, "|T - T(explicitly set twins)| R^3 = " + bsx::fmt((T - Tt).norm() * R * R * R));
+    // induced dipoles: fields, energies, operator
+    const V3 mu1(0.2, -0.4, 0.7), mu2(0.3, -0.1, 0.2);
+    auto induced = [&](const PolarSite &x1, const PolarSite &x2, V3 &Vn, V3 &Vv, double &eii, double &eis, Eigen::MatrixXd &D, Eigen::VectorXd &Mv) {
+      PolarSegment a("A", 0), b("B", 1);
+      a.push_back(x1); b.push_back(x2);
+      a[0].setInduced_Dipole(mu1); b[0].setInduced_Dipole(mu2);
+      a[0].Reset(); b[0].Reset();
+      ee.ApplyInducedField<Estatic::noE_V>(a, b);
+      Vn = b[0].V_noE();
+      b[0].Reset();
+      ee.ApplyInducedField<Estatic::V>(a, b);
+      Vv = b[0].V();
+      eeInteractor::E_terms t = ee.CalcPolarEnergy(a, b);
+      eii = t.E_indu_indu(); eis = t.E_indu_stat();
+      std::vector<PolarSegment> segs{a, b};
+      DipoleDipoleInteraction op(ee, segs);
+      D.resize(6, 6);
+      for (Index i = 0; i < 6; i++) for (Index j = 0; j < 6; j++) D(i, j) = op(i, j);
+      Eigen::VectorXd v(6);
+      v << 1, -2, 0.5, 0.25, 3, -1;
+      Mv = op.multiply(v);
+    };
+    V3 Vn, Vv, Vnt, Vvt;
+    double eii, eis, eiit, eist;
+    Eigen::MatrixXd D, Dt;
+    Eigen::VectorXd Mv, Mvt;
+    induced(s1, s2, Vn, Vv, eii, eis, D, Mv);
+    induced(t1, t2, Vnt, Vvt, eiit, eist, Dt, Mvt);
+    if (!((Vn - Vnt).norm() <= 1e-11 * u) || !((Vv - Vvt).norm() <= 1e-11 * u))
+      return failwith("prov-induced-field-differs-from-explicit" + pk, "field term from the induced dipole differs by " + bsx::fmt((Vn - Vnt).norm()) + " from that between explicitly set twins");
+    if (!(std::fabs(eii - eiit) <= 1e-11 * u)) return failwith("prov-E-indu-indu-differs-from-explicit" + pk, "E_indu_indu = " + bsx::fmt(eii) + ", explicitly set twins " + bsx::fmt(eiit));
+    if (!(std::fabs(eis - eist) <= 1e-11 * (std::fabs(eist) + 1e-300))) return failwith("prov-E-indu-stat-differs-from-explicit" + pk, "E_indu_stat = " + bsx::fmt(eis) + ", explicitly set twins " + bsx::fmt(eist));
+    if (!((D - Dt).cwiseAbs().maxCoeff() <= 1e-11 * Dt.cwiseAbs().maxCoeff()) || !((Mv - Mvt).norm() <= 1e-11 * (Mvt.norm() + 1e-300)))
+      return failwith("prov-ddi-differs-from-explicit" + pk, "DipoleDipoleInteraction operator differs from the one on explicitly set twins by " + bsx::fmt((D - Dt).cwiseAbs().maxCoeff()));
+    // induced field = finite-difference derivative of E_indu_indu w.r.t. the target's induced dipole
+    {
+      PolarSegment a("A", 0), b("B", 1);
+      a.push_back(s1); b.push_back(s2);
+      a[0].setInduced_Dipole(mu1);
+      V3 dEi;
+      for (int k = 0; k < 3; k++) {
+        V3 d = V3::Zero();
+        d(k) = 0.5;
+        b[0].setInduced_Dipole(mu2 + d);
+        double ep = ee.CalcPolarEnergy(a, b).E_indu_indu();
+        b[0].setInduced_Dipole(mu2 - d);
+        double em = ee.CalcPolarEnergy(a, b).E_indu_indu();
+        dEi(k) = ep - em;
+      }
+      if (!((Vn - dEi).norm() <= 1e-12 * mu1.norm() * u)) return failwith("prov-induced-field-derivative" + pk, "induced field term differs from d E_indu_indu / d mu by " + bsx::fmt((Vn - dEi).norm()));
+      // and it is the tensor applied to the inducing dipole, with the tensor decided above
+      if (!((Vn - T.transpose() * mu1).norm() <= 1e-12 * mu1.norm() * u)) return failwith("prov-induced-field-not-T-mu" + pk, "induced field term is not T^T mu_1");
+    }
+    // (4) the cached quantities themselves (narrow diagnosis; the behavioural oracles above come first)
+    for (int i = 0; i < 2; i++) {
+      const PolarSite &a = i ? s2 : s1, &b = i ? t2 : t1;
+      if (!(std::fabs(a.getSqrtInvEigenDamp() - b.getSqrtInvEigenDamp()) <= 1e-12 * b.getSqrtInvEigenDamp()))
+        return failwith(std::string("prov-damping-length-") + std::to_string(K[i]), "site " + std::to_string(i + 1) + " has damping length factor " + bsx::fmt(a.getSqrtInvEigenDamp()) +
+                                                                                     " but a site explicitly given the same polarisability has " + bsx::fmt(b.getSqrtInvEigenDamp()));
+      if (!((a.getPInv() - b.getPInv()).norm() <= 1e-12 * b.getPInv().norm()))
+        return failwith(std::string("prov-pinv-") + std::to_string(K[i]), "inverse polarisability differs from that of a site explicitly given the same polarisability");
+    }
+    char b[96];
+    snprintf(b, sizeof b, "prov|%d|%d|%.5e", c.k1, c.k2, dev);
+    o.cls = bsx::fnv(b);
+    o.extra = "|T-T0|R^3=" + bsx::fmt(dev) + " damping length factors " + bsx::fmt(s1.getSqrtInvEigenDamp()) + " / " + bsx::fmt(s2.getSqrtInvEigenDamp());
+  } catch (const std::exception &e) {
+    return failwith("prov-throws-" + std::to_string(c.k1) + "-" + std::to_string(c.k2), std::string("exception: ") + e.what());
+  }
+  return o;
+}
+
 // ------------------------------------------------------------------ --case
 static bsx::Outcome run_case(const std::string &cas) {
   auto m = bsx::kvs(cas);
   if (cas.rfind("pair;", 0) == 0) return run_pair(parsesite(m, "a"), parsesite(m, "b"));
+  if (cas.rfind("prov;", 0) == 0) {
+    ProvCase c;
+    c.k1 = atoi(m["k1"].c_str()); c.k2 = atoi(m["k2"].c_str()); c.el = atoi(m["el"].c_str()); c.dir = atoi(m["dir"].c_str());
+    c.R = unhex(m["R"]); c.damp = unhex(m["damp"]);
+    return run_prov(c);
+  }
   if (cas.rfind("rot;", 0) == 0) {
     RotCase c;
     c.lvl = atoi(m["lvl"].c_str()); c.piv = atoi(m["piv"].c_str()); c.rot = atoi(m["rot"].c_str()); c.rk = atoi(m["rk"].c_str());
@@ -772,7 +985,7 @@ int main(int argc, char **argv) {
   }
   bsx::Report R;
   R.property = "C15"; R.part = "mpole"; R.tier = a.tier;
-  R.max_samples = 12;
+  R.max_samples = 16;
   const bool thorough = a.tier == "thorough";
 
   // directions: lattice directions + generic ones
@@ -896,6 +1109,22 @@ int main(int argc, char **argv) {
         if (shown < 2 && piv >= 3 && rot > 0 && gi % 97 == 13) { R.sample(rotstr(c) + " (pivot passed as " + pivname(piv) + ") -> " + o.extra); shown++; }
       }
   }
+  // provenance of the polarisability x provenance x element pair x separation x direction x damping
+  {
+    long long shown = 0;
+    std::vector<double> PR = thorough ? std::vector<double>{0.5, 1, 2, 3, 5, 10, 30, 100, 300, 1000} : std::vector<double>{1, 3, 10, 100, 1000};
+    for (int k1 = 0; k1 < 8; k1++) for (int k2 = 0; k2 < 8; k2++) for (int el = 0; el < 3; el++) for (double Rr : PR)
+      for (int dir = 0; dir < (thorough ? 3 : 1); dir++) for (double dmp : {0.39, 1e6}) {
+        if (!a.mine(gi++)) continue;
+        ProvCase c;
+        c.k1 = k1; c.k2 = k2; c.el = el; c.dir = thorough ? dir : (k1 + k2 + el) % 3; c.R = Rr; c.damp = dmp;
+        bsx::Outcome o = run_prov(c);
+        R.eval(); R.counters["prov_cases"]++;
+        if (!o.ok) { R.fail(o.key, o.what, provstr(c)); continue; }
+        R.cls(o.cls);
+        if (shown < 1 && k1 == 0 && k2 >= 3 && Rr == 10 && dmp < 1) { R.sample(provstr(c) + " (" + provname(k1) + " / " + provname(k2) + ") -> " + o.extra); shown++; }
+      }
+  }
   // DipoleDipoleInteraction
   for (double scl : {0.5, 1.0, 3.0, 10.0, 100.0})
     for (double al : {1.0, 10.0})
@@ -926,7 +1155,14 @@ int main(int argc, char **argv) {
            "other object - on StaticSite, PolarSite, StaticSegment, PolarSegment (3+2 sites away from the origin, 2 geometries) x 6 rotations x 4 rank "
            "configurations x both call orders: after every call each site sits at R*(p - pivot)+pivot with the pivot VALUE taken before the call, charge/rank "
            "unchanged, dipole = R mu, quadrupole = R Theta R^T (own Stone conversion), segment centre rotated; after the common rotation the sum of pair "
-           "energies is unchanged and the static field terms are the rotated ones. distinct_nontrivial = distinct (rank block, sign, binary "
+           "energies is unchanged and the static field terms are the rotated ones. (prov) provenance of the polarisability of each of two PolarSites, 8 x 8: constructor "
+           "default (setpolarization never called), explicitly set to that value, explicitly set anisotropic, .mps text without P line, with isotropic P "
+           "line, with 6-component P line, WriteMPS + LoadFromFile, checkpoint round trip; x 3 element pairs x separations up to 1000 bohr x damping "
+           "{0.39, 1e6}: reported polarisability = what the provenance promises; differential against twins built by the constructor and given the SAME "
+           "polarisability explicitly (damping length factor, inverse polarisability, Thole tensor, ApplyInducedField, E_indu_indu, E_indu_stat, "
+           "DipoleDipoleInteraction entries and multiply, all to 1e-11); absolute: symmetric, -> undamped and traceless where a u^3 >= 100 (u from the "
+           "reported principal polarisabilities), weaker than undamped where a u^3 <= 10, not identically zero, induced field = d E_indu_indu / d mu = "
+           "T^T mu. distinct_nontrivial = distinct (rank block, sign, binary "
            "exponent) of non-zero energies + distinct field vectors + distinct Thole deviations";
   R.assumptions = {"quadrupole moments follow Stone's convention (Q20 = Theta_zz, Theta_ab = sum q (3/2 r_a r_b - 1/2 r^2 delta_ab)), the one the .mps format documents",
                    "the field term is compared with +dE/dmu as the statement says ('equals the derivative'); it is the potential gradient, i.e. minus the physical field",
